@@ -1,7 +1,7 @@
 """C17 Large-diagonal row permutation  —  R3 index-base pairing around mc64ad_ in ?ldperm, return value, R10 on MC64, R4, R9."""
 from ..facts import Program, strip, callee_name, root_ref, loc
 from ..run import Check, AnalysisBroken
-from ..rules import r3_dispatch as r3, r9_sibling, r10
+from ..rules import r3_dispatch as r3, r9_sibling, r10, inplace
 from ..rules.effects import PathEffects
 from . import _drv, c19
 from ._drv import Flags, Expect, ppos
@@ -81,7 +81,9 @@ def run(tier):
         'mc64ad_ and shifted back exactly once on every path to a return (must-pass-through on the restore loops), perm is shifted to '
         '0-based once, u and v are taken from the dual variables for job = 5, and the routine returns info[0] of mc64ad_ on every exit. '
         'R10: mc64ad_ and everything it calls can write only num, cperm, iw, dw, info - never the caller\'s pattern or values (sound '
-        'may-write set). ?gsisx tests the return value (C15). R4 on the routines; R9 (c=z; s differs from d by the documented copy to '
+        'may-write set). In-place hazard: no loop of the MC64 kernels reads the shared work array q[] as a list (q[v], v its counter) while it also '
+        'stores into q[] or hands it to the heap routines - heap, Q2 and an unread list share q[1..n] with nothing bounding their total. '
+        '?gsisx tests the return value (C15). R4 on the routines; R9 (c=z; s differs from d by the documented copy to '
         'double). Not decided: optimality of the matching, magnitude-one diagonal, bounds on the scaled entries (values).')
     cfgs = ['tested'] if tier == 'quick' else ['tested', 'idx64']
     chk.configs = cfgs
@@ -97,6 +99,7 @@ def run(tier):
             raise AnalysisBroken('C17: %d leaves, floor 8' % n)
         allowed = {'num': ['[]'], 'cperm': ['[]'], 'iw': ['[]'], 'dw': ['[]'], 'info': ['[]'], 'icntl': ['[]']}
         r10.maywrite(chk, 'C17.D3', prog, eff, 'mc64ad_', allowed, cfgname)
+        inplace.run(chk, 'C17.inplace', prog, cfgname)
         fnames = {f.name for f in prog.all_funcs() if f.unit.endswith(('ldperm.c', 'mc64ad.c'))}
         c19.run_r4(chk, prog, cfgname, funcs=fnames, cid='C17.D4')
         if cfgname == 'tested':
